@@ -356,6 +356,8 @@ def legal(meta, ops, upto=None, two_monitors=False):
                         return None
                     if p.get('se%d' % j) == 3 and (p.get('nobj') not in m.objs or m.objs[p['nobj']].kind not in 'MW' or sh['fn'] in ('gs', 'r')):
                         return None
+                    if p.get('nfn') not in (None, 0, 1) or (p.get('nfn') == 1 and (sh['fn'] != 'f' or 3 not in [p.get('se%d' % x) for x in range(3)])):
+                        return None
                     if p.get('se%d' % j) == 5 and (p.get('nobj') != op[4] or sh['fn'] == 'r'):
                         return None
                 modes = [p.get('se%d' % j) for j in range(3)]
